@@ -131,6 +131,57 @@ func facts(f *hc.Facts) {
 	} else {
 		f.Bool("writesVersion12", true, "NewFakeTLS: version: Version12Bytes")
 	}
+	// FakeTLS.Read: the switch over the record type, as a table the model interprets
+	// (0 = skip the record, 1 = deliver its data, 2 = error "handshake", 3 = error "unsupported")
+	var table []string
+	deflt := -1
+	if fd := f.FuncDecl(dir, "FakeTLS.Read"); fd != nil {
+		ast.Inspect(fd, func(n ast.Node) bool {
+			sw, ok := n.(*ast.SwitchStmt)
+			if !ok || sw.Tag == nil || hc.Squash(f.Src(sw.Tag)) != "rec.Type" {
+				return true
+			}
+			for _, cl := range sw.Body.List {
+				cc := cl.(*ast.CaseClause)
+				act := -1
+				switch {
+				case len(cc.Body) == 0:
+					act = 1
+				case len(cc.Body) == 1 && hc.Squash(f.Src(cc.Body[0])) == "continue":
+					act = 0
+				default:
+					if _, isRet := cc.Body[len(cc.Body)-1].(*ast.ReturnStmt); isRet {
+						act = 3
+						if strings.Contains(f.Src(cc.Body[len(cc.Body)-1]), "handshake") {
+							act = 2
+						}
+					}
+				}
+				if cc.List == nil {
+					deflt = act
+					continue
+				}
+				for _, e := range cc.List {
+					if id, ok := e.(*ast.Ident); ok {
+						if v, ok := f.ConstInt(dir, id.Name); ok && act >= 0 {
+							table = append(table, fmt.Sprintf("(%s, %d)", v, act))
+							continue
+						}
+					}
+					table = append(table, "(missing_case, 0)")
+				}
+			}
+			return false
+		})
+	}
+	if len(table) == 0 || deflt < 0 {
+		f.Missing("readSwitch", "FakeTLS.Read: switch rec.Type with a default not found")
+		f.Missing("readDefault", "FakeTLS.Read: switch rec.Type with a default not found")
+	} else {
+		f.Raw("def readSwitch : List (Nat × Nat) := [" + strings.Join(table, ", ") + "] -- FakeTLS.Read: switch rec.Type (type, action) in source order")
+		f.Nat("readDefault", deflt, "FakeTLS.Read: action of the default case")
+	}
+
 	// FakeTLS.Write: the loop that cuts the data into records.  The cut condition and the cut position
 	// are translated (semantic facts); without a loop the model falls back to one record per call.
 	var cond, cut ast.Expr
